@@ -27,6 +27,16 @@ EPS = 0.005
 TERMINATIONS = [None, 'raise_user', 'raise_interrupt', 'body_raise_user', 'body_raise_interrupt']
 
 
+EXTRACTORS = fr.EXTRACTORS + ['ok_shares_with_data']
+
+
+def expected_user(extractor):
+    exp = {'u_tag': 'live', 'u_n': 3}
+    if extractor == 'ok_shares_with_data':
+        exp['u_rows'] = ['row', 1, 'of the run']
+    return exp
+
+
 def judge_metadata(ctx, res, md, w, extractor):
     from playback.tape_recorder import TapeRecorder as TR
     j = res.live.journal
@@ -67,8 +77,8 @@ def judge_metadata(ctx, res, md, w, extractor):
     # user metadata
     user = {k: v for k, v in md.items() if isinstance(k, str) and k.startswith('u_')}
     ran = [e for e in j.events if e['ev'] == 'extractor']
-    if extractor in ('ok', 'ok_calls_output', 'ok_live_mapping'):
-        if user != {'u_tag': 'live', 'u_n': 3}:
+    if extractor in ('ok', 'ok_calls_output', 'ok_live_mapping', 'ok_shares_with_data'):
+        if user != expected_user(extractor):
             ctx.violation('user metadata differs from what the extractor returned', dict(w, got=repr(user)))
         ctx.count('extractor_ok_checked')
     else:
@@ -99,6 +109,10 @@ def run_program(ctx, prog, rng, pidx):
         if op in ('in', 'out'):
             placements.append({pos: 'body_raise_user'})
             placements.append({pos: 'body_raise_interrupt'})
+        if pos in (trace[0][0], trace[-1][0]):
+            # an ordinary exception the serializer cannot encode (it carries a live resource), raised with a message and without arguments
+            placements.append({pos: 'raise_user_unencodable'})
+            placements.append({pos: 'raise_user_unencodable_noargs'})
     kind = ('memory', 'file', 's3')[pidx % 3]
     with open_box(kind) as box:
         spy = SpyCassette(box.cassette)
@@ -125,7 +139,7 @@ def run_program(ctx, prog, rng, pidx):
             inner_prog['body'] = [st for st in inner_prog['body'] if st['op'] != 'inner_op']
             prog['_inner_built'] = Built(inner_prog, rec, World(inner_prog['seed_world'], raise_rate=0.0))
         for faults in placements:
-            for extractor in ([rng.choice(fr.EXTRACTORS)] if ctx.quick and len(placements) > 12 else fr.EXTRACTORS):
+            for extractor in ([rng.choice(EXTRACTORS)] if ctx.quick and len(placements) > 12 else EXTRACTORS):
                 bk = extractor is not None
                 # the operation is called from ordinary code, or from a compensating path (except / finally block) of its caller
                 cc = rng.choice(fr.CALLER_CONTEXTS) if rng.random() < 0.5 else 'plain'
@@ -152,6 +166,9 @@ def run_program(ctx, prog, rng, pidx):
                         rec.play(saves[0][2], _pf(_B(res.live.prog, rec, _W(1, poison=True), cls_name=res.live.cls.__name__)))
                     except BaseException:  # noqa - whatever the replay does, the next run's metadata must tell the truth
                         pass
+                    finally:
+                        from vlib import genclasses as _gc
+                        _gc.register(res.live.cls)      # (the replay built its own class object under the same importable name)
                     ctx.count('replays_between_recorded_runs')
                 ro = spy.recordings.get(saves[0][1])
                 if ro is None or not recording_in_domain(getattr(ro, 'recording_data', {}), getattr(ro, 'recording_metadata', {})):
@@ -172,6 +189,11 @@ def run_program(ctx, prog, rng, pidx):
                                 ctx.violation('stored metadata (%s) differs from the metadata handed to the cassette' % view, dict(w, key=k))
                         if stored.get(TR.OPERATION_CLASS) is not res.live.cls:
                             ctx.violation('stored metadata (%s) does not state the operation class' % view, w)
+                        if extractor in ('ok', 'ok_calls_output', 'ok_live_mapping', 'ok_shares_with_data'):
+                            user = {k: v for k, v in stored.items() if isinstance(k, str) and k.startswith('u_')}
+                            ctx.count('stored_user_metadata_checked')
+                            if user != expected_user(extractor):
+                                ctx.violation('stored user metadata (%s) differs from what the extractor returned' % view, dict(w, got=repr(user)[:200]))
                 except Exception as ex:
                     ctx.violation('stored metadata not readable: %s' % type(ex).__name__, w)
         # default lookup excludes exactly the incomplete ones
